@@ -5,6 +5,8 @@ import (
 	"github.com/scrapli/scrapligo/util/verifhook"
 	"strconv"
 	"time"
+
+	"github.com/scrapli/scrapligo/response"
 )
 
 const (
@@ -68,10 +70,24 @@ func (d *Driver) read() {
 
 			var subID int
 
-			messageID = getID(patterns.messageID.FindSubmatch(m))
+			// where we look for the ids -- with netconf 1.1 a chunk boundary may fall anywhere,
+			// including inside the message-id attribute, so look at the de-chunked payload
+			idb := m
 
-			if bytes.Contains(m, []byte("</subscription-id>")) {
-				subID = getID(patterns.subscriptionID.FindSubmatch(m))
+			if d.SelectedVersion == V1Dot1 {
+				dechunked := response.NewNetconfResponse(nil, nil, "", 0, V1Dot1)
+
+				dechunked.Record(m)
+
+				if dechunked.Result != "" {
+					idb = []byte(dechunked.Result)
+				}
+			}
+
+			messageID = getID(patterns.messageID.FindSubmatch(idb))
+
+			if bytes.Contains(idb, []byte("</subscription-id>")) {
+				subID = getID(patterns.subscriptionID.FindSubmatch(idb))
 			}
 
 			if messageID != 0 {
